@@ -179,10 +179,17 @@ def atomic_scenarios(tier):
             contents[1] = "d1/.content"
         cfg = Config(levels=1, ndisks=2, contents=contents)
         out.append(("sync", cfg, base, ("sync",)))
+        if n in (2, 3):
+            # format 3 content (split sizes recorded): a sync with nothing to do does not touch the content by itself
+            cfg3 = Config(levels=1, ndisks=2, contents=contents, splits={0: 2}, parity_limit=6144, hashsize=8)
+            out.append(("sync-v3", cfg3, base, ("sync",)))
         if tier == "thorough" or n == 3:
             out.append(("touch", cfg, [("write", "d1", "anchor", 700, 0), ("write", "d2", "anchor", 700, 0),
                                        ("write", "d1", "t", 100, 0, 0), ("cmd", "sync")], ("touch",)))
             out.append(("scrub", cfg, base + [("cmd", "sync")], ("scrub", "-p", "full")))
+            if n == 3:
+                out.append(("touch-v3", cfg3, [("write", "d1", "anchor", 700, 0), ("write", "d2", "anchor", 700, 0),
+                                               ("write", "d1", "t", 100, 0, 0), ("cmd", "sync")], ("touch",)))
     return out
 
 
@@ -190,7 +197,12 @@ def vkey(data):
     """identity of a complete content version: the decoded model without inode numbers (inode numbers of the
     data files differ between two materialisations of the same state, everything else is reproducible)"""
     try:
-        return hashlib.blake2b(repr(C.decode(data).model()).encode(), digest_size=8).hexdigest()
+        c = C.decode(data)
+        for p in c.parity.values():
+            if p["splits"] is not None:
+                # the recorded split paths are absolute (they start with the root of the lab in use)
+                p["splits"] = [(b"/".join(x[0].split(b"/")[-2:]),) + tuple(x[1:]) for x in p["splits"]]
+        return hashlib.blake2b(repr(c.model()).encode(), digest_size=8).hexdigest()
     except C.ContentError:
         return None
 
@@ -217,6 +229,20 @@ def atomic_job(j):
             except C.ContentError as e:
                 dec = "undecodable: %s" % e
             v.append(dict(kind="content-copy-neither-old-nor-new", where=where, copy=os.path.relpath(p, L.root), size=len(data), dec=dec))
+    # "after a successful command all copies are byte-identical": the next command of the user, whatever the kill left behind
+    if not v:
+        r2 = L.run("sync")
+        if r2.rc == 0:
+            raws = []
+            for p in L.content_paths():
+                try:
+                    raws.append(open(p, "rb").read())
+                except FileNotFoundError:
+                    raws.append(None)
+            if len(set(raws)) != 1:
+                same_size = len({len(x) if x is not None else -1 for x in raws}) == 1
+                v.append(dict(kind="copies-differ-after-next-successful-sync" + ("-same-size" if same_size else ""), where=where,
+                              sizes=[len(x) if x is not None else None for x in raws]))
     return dict(viols=v, harness=False)
 
 
